@@ -56,6 +56,7 @@ fn on_event(op: &str, path: &str, detail: &str) {
         }
         let n = rec.images.len();
         let to = format!("{}/img{}", rec.root, n);
+        let _ = std::fs::remove_dir_all(&to);
         copy_dir(Path::new(&rec.dir), Path::new(&to));
         let label = if op == "rename" { format!("rename {} -> {}", short_name(path, &rec.dir), short_name(detail, &rec.dir)) } else { format!("{} {} {}", op, short_name(path, &rec.dir), detail) };
         rec.images.push(Image { dir: to, label, index: n });
